@@ -325,11 +325,11 @@ def r18_5(ctx):
 
 
 def run(ctx):
-    r18_1(ctx)
-    r18_2(ctx)
-    r18_3(ctx)
-    r18_4(ctx)
-    r18_5(ctx)
+    ctx.do(r18_1)
+    ctx.do(r18_2)
+    ctx.do(r18_3)
+    ctx.do(r18_4)
+    ctx.do(r18_5)
     ctx.trust("frozen pre-auth handler set: " + ", ".join(sorted(PREAUTH_ALLOWED)))
     for k, v in STATE_WRITERS.items():
         ctx.trust(f"frozen state writer: {k} - {v}")
